@@ -42,7 +42,16 @@ Definition run_case (inp : list Z) : list Z :=
   let '(sm, dm, ops) := pdecode inp in
   flat_map (fun s => observe (ps_core s)) (ptrace (pinit sm dm) ops).
 
-Fixpoint pcheck (fuel : nat) (s : pstate) (rest : list pop) (obs : list Z) : Z :=
+(* the quota objects the plugin was handed, from the history alone *)
+Definition psstep (sh : list qshape) (o : pop) : list qshape :=
+  match o with
+  | PlQuotaAdd sp => match find sh (q_name sp) with Some _ => sh | None => sset sh sp end
+  | PlQuotaUpdate sp => sset sh sp
+  | PlQuotaDelete n => remove_sh sh n
+  | _ => sh
+  end.
+
+Fixpoint pcheck (fuel : nat) (sh : list qshape) (s : pstate) (rest : list pop) (obs : list Z) : Z :=
   match fuel, rest with
   | S f, o :: t =>
       if pwf_op s o then
@@ -50,9 +59,12 @@ Fixpoint pcheck (fuel : nat) (s : pstate) (rest : list pop) (obs : list Z) : Z :
         | [] => 99
         | _ =>
             let s' := pstep s o in
+            let sh' := psstep sh o in
             let '(snap, leak, obs') := dec_snapshot [] obs in
-            let c := if leak =? 0 then state_code (refill (ps_alive s') snap) else 13 in
-            if c =? 0 then pcheck f s' t obs' else c
+            let c := if negb (leak =? 0) then 13
+                     else if negb (shapes_eqb (st_sh snap) sh') then 14
+                     else state_code (refill (ps_alive s') snap) in
+            if c =? 0 then pcheck f sh' s' t obs' else c
         end
       else 0
   | _, _ => 0
@@ -62,7 +74,7 @@ Definition prop_case (inp obs : list Z) : Z :=
   let '(sm, dm, ops) := pdecode inp in
   if negb (wf_init sm dm) then 0
   else if (hdZ obs =? -777777) && (Nat.eqb (length obs) 1) then 98
-  else pcheck (length ops) (pinit sm dm) ops obs.
+  else pcheck (length ops) (st_sh (init sm dm)) (pinit sm dm) ops obs.
 
 (* ---------- known shapes ---------- *)
 
